@@ -13,7 +13,7 @@ from e1_paths import CFG, peel_cond, single_def
 from report import Check
 
 UNITS = ["src/Neigh/ANeigh.cpp", "src/Neigh/NeighMoving.cpp", "src/Neigh/NeighBench.cpp", "src/Neigh/NeighCell.cpp",
-         "src/Neigh/NeighUnique.cpp", "src/Neigh/NeighImage.cpp", "src/Tree/neighbors_heap.cpp"]
+         "src/Neigh/NeighUnique.cpp", "src/Neigh/NeighImage.cpp", "src/Tree/neighbors_heap.cpp", "src/Tree/ball_algorithm.cpp"]
 
 # function -> (candidate variable, required gates).  Gate names are resolved by GATES below.
 TABLE = {
@@ -196,6 +196,134 @@ def sort_rule(prog, chk):
     chk.floor("C06s", n, 2)
 
 
+def kinds_rule(prog, chk):
+    """C06k - ranks of the target data base and ranks of the data base searched are different kinds of integers (E5): a per-sample
+    accessor of `_dbin` never receives a target rank and conversely.  Kinds: loop variables bounded by `_dbin->getSampleNumber()`
+    (IN) / `_dbout->getSampleNumber()` (OUT); the documented parameters `iech_in` / `iech_out`; the memo of the last target."""
+    n = nk = 0
+    for f in sorted(prog.funcs, key=lambda x: (x.file, x.line)):
+        if f.body is None or not f.cls or not (f.cls == "ANeigh" or "ANeigh" in prog.bases(f.cls)):
+            continue
+        lb = {}
+        for loop in f.walk():
+            if loop["k"] == "For" and loop["c"][1] is not None:
+                for x in walk(loop["c"][1]):
+                    if x["k"] == "BinOp" and x.get("op") == "<" and x["c"][0] is not None and x["c"][0]["k"] == "DeclRefExpr":
+                        lb.setdefault(x["c"][0]["d"], []).append(x["c"][1])
+
+        def bound_kind(b, depth=0):
+            while b is not None and b["k"] == "Cast":
+                b = b["c"][0]
+            if b is None or depth > 3:
+                return None
+            if b["k"] == "MCall" and (b.get("callee") or "").split("::")[-1] == "getSampleNumber":
+                o = call_obj(b)
+                s_ = show(o) if o is not None else ""
+                return {"_dbin": "IN", "_dbout": "OUT"}.get(s_)
+            if b["k"] == "DeclRefExpr" and b.get("dk") == "var":
+                d = single_def(f, b["d"])
+                if d is not None and d is not b:
+                    return bound_kind(d, depth + 1)
+            return None
+
+        def kind(e, depth=0):
+            while e is not None and e["k"] == "Cast":
+                e = e["c"][0]
+            if e is None or depth > 3:
+                return None
+            if e["k"] == "DeclRefExpr" and e.get("dk") == "parm":
+                return {"iech_in": "IN", "iech_out": "OUT"}.get(e["n"])
+            if e["k"] == "MemberExpr" and e.get("n") == "_iechMemo":
+                return "OUT"
+            if e["k"] == "DeclRefExpr" and e.get("dk") == "var":
+                if e["d"] in lb:
+                    ks = {bound_kind(b) for b in lb[e["d"]]}
+                    return ks.pop() if len(ks) == 1 else None
+                d = single_def(f, e["d"])
+                if d is not None and d is not e:
+                    return kind(d, depth + 1)
+            return None
+        ordn = {}
+        for c in f.calls():
+            if c["k"] != "MCall" or not (c.get("cls") or "").startswith("Db"):
+                continue
+            o = call_obj(c)
+            recv = show(o) if o is not None else ""
+            if recv not in ("_dbin", "_dbout"):
+                continue
+            ri = gates.rank_arg_index(prog, c)
+            a = call_args(c)
+            if ri is None or ri >= len(a):
+                continue
+            kd = kind(a[ri])
+            n += 1
+            if kd:
+                nk += 1
+            want = "IN" if recv == "_dbin" else "OUT"
+            ok = kd is None or kd == want
+            chk.analysed(f)
+            short = (c.get("callee") or "").split("::")[-1]
+            name = show(a[ri])[:20]
+            ordn[(short, name)] = ordn.get((short, name), 0) + 1
+            chk.ob("C06k", "%s: %s->%s receives `%s` (%s)" % (f.name, recv, short, name, {None: "kind not inferred", "IN": "rank of the data base searched",
+                                                                                         "OUT": "rank of the target data base"}[kd]), f.loc(c), ok,
+                   detail=None if ok else "`%s` is a rank of %s but indexes %s: the test (cross-validation code, coordinates, activity) is made on another "
+                   "sample than the one intended, so the neighbourhood is not the specified one" % (name, "_dbout" if kd == "OUT" else "_dbin", recv),
+                   key="C06k|%s|%s.%s(%s)#%d" % (f.name, recv, short, name, ordn[(short, name)]), nontrivial=kd is not None)
+    chk.floor("C06k", n, 15)
+    chk.floor("C06k-kinded", nk, 10)
+
+
+def distance_rule(prog, chk):
+    """C06h - the distance used by the ball tree is a file-static function pointer set by define_dist_function() when a tree is
+    built.  For every documented choice (a user function; default 1 = Euclidean, 2 = Manhattan) every path through the function
+    assigns the pointer: otherwise the tree is built and queried with whatever distance the PREVIOUS tree left there."""
+    f = prog.fn("define_dist_function")
+    chk.analysed(f)
+    g = CFG(f)
+    fp, sel = f.params[0], f.params[1]
+
+    def is_assign(x):
+        if x["k"] != "Assign" or x.get("op") != "=":
+            return False
+        l = x["c"][0]
+        return l is not None and l["k"] == "DeclRefExpr" and l.get("n") == "st_distance_function"
+    if not any(is_assign(x) for x in f.walk()):
+        raise facts.AnalysisBroken("define_dist_function no longer assigns st_distance_function")
+    n = 0
+    for label, userfn, k in (("a user distance function", True, 1), ("default 1 (Euclidean)", False, 1), ("default 2 (Manhattan)", False, 2)):
+        def edge_ok(blk, e, s_, userfn=userfn, k=k):
+            c = g.cond(blk["b"])
+            if c is None or len(blk["s"]) != 2:
+                return True
+            core, pol = peel_cond(c)
+            while core is not None and core["k"] == "Cast":
+                core = core["c"][0]
+            val = None
+            if core is not None and core["k"] == "BinOp" and core.get("op") in ("==", "!="):
+                l, r = core["c"]
+                while l is not None and l["k"] == "Cast":
+                    l = l["c"][0]
+                while r is not None and r["k"] == "Cast":
+                    r = r["c"][0]
+                if l is not None and l.get("d") == sel["d"] and r is not None and r["k"] == "Int":
+                    val = (k == r["v"]) if core["op"] == "==" else (k != r["v"])
+                elif l is not None and l.get("d") == fp["d"] and r is not None and r["k"] == "Null":
+                    val = (not userfn) if core["op"] == "==" else userfn
+            elif core is not None and core["k"] == "DeclRefExpr" and core.get("d") == fp["d"]:
+                val = userfn
+            if val is None:
+                return True
+            return ((e == 0) == pol) == val
+        w = g.search(g.entry_pos(), to_exit=True, is_barrier=is_assign, edge_ok=edge_ok)
+        n += 1
+        chk.ob("C06h", "define_dist_function: the distance of the tree being built is set for %s" % label, f.loc(), w is None,
+               detail=None if w is None else "a path through the function leaves st_distance_function as the previous tree set it: after a tree built "
+               "with another distance, this tree is built and queried with that distance (wrong k nearest neighbours)",
+               key="C06h|define_dist_function|%s" % label, path=None if w is None else g.describe(w))
+    chk.floor("C06h", n, 3)
+
+
 def main(tier):
     chk = Check("C06", tier,
                 "Static admission-gate completeness of the neighbourhood searches (moving, bench, cell, unique): the statement "
@@ -275,4 +403,6 @@ def main(tier):
                key="C06|%s|nmini" % fname, path=None if w is None else g.describe(w))
     chk.floor("C06", n, 19)
     sort_rule(prog, chk)
+    kinds_rule(prog, chk)
+    distance_rule(prog, chk)
     return chk.finish()
